@@ -275,6 +275,17 @@ fn main() {
                     }
                 }
             }
+            // needles comparable in size to the haystack (few windows, each
+            // potentially expensive)
+            if fam == "am1b_in_a" || fam == "bam1_in_a" || fam == "rk_collision" {
+                for &m in &[100usize, 1000, 4000, 16000] {
+                    for n in [m + 1, m + m / 2, 2 * m - 1] {
+                        for op in ["find", "rfind", "memmem_find", "memmem_rfind"] {
+                            println!("{} {} {} {}", op, fam, n, m);
+                        }
+                    }
+                }
+            }
             // quadratic behaviour with a small constant only shows at larger
             // sizes: the families that keep the prefilter switched on also run
             // at 2^17 (thorough: 2^18) with a needle of n/16 bytes
